@@ -92,6 +92,23 @@ func checkC06(w *World) {
 			v := stripConvAll(st.Val)
 			ok := false
 			detail := ""
+			// the operator handed to a generic evaluator as a function value: what the closure was bound to
+			if c, isCall := v.(*ssa.Call); isCall && staticCallee(c) == nil && len(c.Call.Args) == 2 {
+				if g := h.boundFunc(c.Call.Value); g != nil {
+					argsOK := c.Call.Args[0] == left && c.Call.Args[1] == right
+					if funcFullName(g) == "math.Mod" {
+						ok = sym == "mod" && argsOK
+						detail = fmt.Sprintf("the bound operator is math.Mod, applied to (left, right) in order: %v; production operator %s", argsOK, sym)
+					} else if op, swapped, isOp := smallBinOp(g); isOp {
+						ok = sym != "mod" && op == arithGoOp[sym] && argsOK && (!swapped || sym == "+" || sym == "*")
+						detail = fmt.Sprintf("the bound operator %s computes its first %s its second parameter (swapped: %v), applied to (left, right) in order: %v; production operator %s", g.Name(), op, swapped, argsOK, sym)
+					} else {
+						detail = "the bound operator " + g.Name() + " is not a single float64 operation on its two parameters"
+					}
+					w.check(P, "R06.1", fmt.Sprintf("%s: stored result #%d", nt, i+1), st.Pos(), ok, detail)
+					continue
+				}
+			}
 			if sym == "mod" {
 				if c, isCall := v.(*ssa.Call); isCall && staticCallee(c) != nil && funcFullName(staticCallee(c)) == "math.Mod" && len(c.Call.Args) == 2 {
 					ok = c.Call.Args[0] == left && c.Call.Args[1] == right
@@ -382,43 +399,52 @@ func (w *World) checkNumericBuiltins(P string, f *Facts, r *Roles) {
 		// accumulator: a float phi updated by ADD of a Number() call inside a loop
 		okAcc := false
 		accDetail := "no float64 accumulator `acc = acc + x.Number()` found"
-		loops := loopBlocks(fn)
-		allInstrs(fn, func(in ssa.Instruction) {
-			bo, ok := in.(*ssa.BinOp)
-			if !ok || bo.Op != token.ADD || !loops[bo.Block()] {
-				return
+		var sumFns []*ssa.Function
+		for g := range staticReach(fn, func(x *ssa.Function) bool { return fnPkgKey(x) == "exec" }) {
+			if fnPkgKey(g) == "exec" {
+				sumFns = append(sumFns, g)
 			}
-			b, ok := bo.Type().Underlying().(*types.Basic)
-			if !ok {
-				return
-			}
-			_, isPhi := bo.X.(*ssa.Phi)
-			other := bo.Y
-			if !isPhi {
-				_, isPhi = bo.Y.(*ssa.Phi)
-				other = bo.X
-			}
-			if !isPhi {
-				return
-			}
-			if b.Info()&types.IsFloat == 0 {
-				// the loop counter of an index loop is not the accumulator
-				if phiV, _ := bo.X.(*ssa.Phi); phiV != nil && (ascendingCounter(phiV) || isCounterPhi(phiV)) {
+		}
+		sortFuncs(sumFns)
+		for _, g := range sumFns {
+			loops := loopBlocks(g)
+			allInstrs(g, func(in ssa.Instruction) {
+				bo, ok := in.(*ssa.BinOp)
+				if !ok || bo.Op != token.ADD || !loops[bo.Block()] {
 					return
 				}
-				if phiV, _ := bo.Y.(*ssa.Phi); phiV != nil && (ascendingCounter(phiV) || isCounterPhi(phiV)) {
+				b, ok := bo.Type().Underlying().(*types.Basic)
+				if !ok {
 					return
 				}
-				accDetail = "the accumulator is of type " + b.Name() + ", not float64"
-				return
-			}
-			if w.isNumberOfNode(stripConvAll(other), 0) {
-				okAcc = true
-				accDetail = "float64 accumulator adds the number of each node (Number() of it, the spelled-out number(string-value(node)), or a helper of the package that returns exactly that)"
-			} else {
-				accDetail = "the added term is not Number() of a node"
-			}
-		})
+				_, isPhi := bo.X.(*ssa.Phi)
+				other := bo.Y
+				if !isPhi {
+					_, isPhi = bo.Y.(*ssa.Phi)
+					other = bo.X
+				}
+				if !isPhi {
+					return
+				}
+				if b.Info()&types.IsFloat == 0 {
+					// the loop counter of an index loop is not the accumulator
+					if phiV, _ := bo.X.(*ssa.Phi); phiV != nil && (ascendingCounter(phiV) || isCounterPhi(phiV)) {
+						return
+					}
+					if phiV, _ := bo.Y.(*ssa.Phi); phiV != nil && (ascendingCounter(phiV) || isCounterPhi(phiV)) {
+						return
+					}
+					accDetail = "the accumulator is of type " + b.Name() + ", not float64"
+					return
+				}
+				if w.isNumberOfNode(stripConvAll(other), 0) {
+					okAcc = true
+					accDetail = "float64 accumulator adds the number of each node (Number() of it, the spelled-out number(string-value(node)), or a helper of the package that returns exactly that)"
+				} else {
+					accDetail = "the added term is not Number() of a node"
+				}
+			})
+		}
 		w.check(P, "R06.4", "builtin sum", fn.Pos(), okAssert && okAcc, fmt.Sprintf("argument asserted to NodeSet: %v; %s", okAssert, accDetail))
 	}
 	// round
@@ -658,4 +684,27 @@ func nodeSetArgHelper(fn *ssa.Function, r *Roles) (*ssa.Call, bool, bool) {
 		out = c
 	})
 	return out, okA, okE
+}
+
+// smallBinOp: g is `func(a, b float64) float64 { return a OP b }` (or b OP a): the operator and whether the
+// parameters are swapped.
+func smallBinOp(g *ssa.Function) (token.Token, bool, bool) {
+	if g == nil || len(g.Params) != 2 || len(g.Blocks) != 1 {
+		return 0, false, false
+	}
+	ret, ok := g.Blocks[0].Instrs[len(g.Blocks[0].Instrs)-1].(*ssa.Return)
+	if !ok || len(ret.Results) != 1 {
+		return 0, false, false
+	}
+	bo, ok := ret.Results[0].(*ssa.BinOp)
+	if !ok {
+		return 0, false, false
+	}
+	if bo.X == ssa.Value(g.Params[0]) && bo.Y == ssa.Value(g.Params[1]) {
+		return bo.Op, false, true
+	}
+	if bo.X == ssa.Value(g.Params[1]) && bo.Y == ssa.Value(g.Params[0]) {
+		return bo.Op, true, true
+	}
+	return 0, false, false
 }
